@@ -183,7 +183,7 @@ def run_case(case, ctx):
             flags.add("children" if spec.get("children", True) else "no-children")
         Wsrc_file = walk.walk(it.f, timestamps=False)
         Wdst_file = walk.walk(dest_it.f, timestamps=False) if dest_it is not it else Wsrc_file
-        ws = walk.walk_obj(it.handle(src), timestamps=False)
+        ws = walk.walk_obj(it.handle(src), timestamps=False, seen=True)
         key_cls = "%s/%s/%s" % (kind, dest, "keep-ids" if spec["keep"] else "fresh-ids")
         try:
             ret = do_copy(it, dest_it, src, dparent, spec)
@@ -213,7 +213,7 @@ def run_case(case, ctx):
             ctx.violation("C20/copy-not-found-under-expected-name/%s" % key_cls, case,
                           {"name": exp_name, "raised": type(exc).__name__, "names": [x.name for x in cont][:8]})
             return
-        wc = walk.walk_obj(ch, timestamps=False)
+        wc = walk.walk_obj(ch, timestamps=False, seen=True)
         ws_exp = dict(ws)
         if new_name:
             ws_exp["name"] = new_name
@@ -326,7 +326,7 @@ def _ancestors(e):
 
 BUILD = ["mk_section", "mk_prop", "mk_prop", "mk_group", "mk_array_ul", "mk_array", "mk_frame", "mk_tag", "mk_mtag",
          "mk_source", "mk_feature", "mk_dim_range", "mk_dim_set", "mk_dim_sampled", "mk_dim_self", "dim_link", "link",
-         "link", "set_meta", "set_definition", "set_array", "set_tag", "set_prop"]
+         "link", "set_meta", "set_definition", "set_array", "set_tag", "set_prop", "sec_link", "sec_link"]
 
 
 def case_strategy():
